@@ -153,7 +153,11 @@ def k_text(run, case, rng, work):
         writer(buf, other)
         with open(wt, "wb") as fh:
             fh.write(b"\xef\xbb\xbf" + b"# earlier content\n" + buf.getvalue().encode())
-        contracts.outcome_of(reader, wt)
+        o_b = contracts.outcome_of(reader, wt)
+        run.check(o_b[0] == "ok" and o_b[1].num_poses == other.num_poses,
+                  "a file with a byte order mark (written through a utf-8-sig handle) is read back by path", case,
+                  "BOM-prefixed %s file of %d poses: %r" % (fmt, other.num_poses, o_b[1] if o_b[0] == "exc" else o_b[1].num_poses),
+                  key="bom-file:not-read")
         contracts.outcome_of(fi.has_utf8_bom, wt)
     # handles need not be at offset 0: several trajectories in one stream, or a title line that
     # the caller consumed itself
